@@ -119,7 +119,11 @@ def reset_on_frame(F, R):
     # prevents update_timer from arming a timer again and an idle peer is never timed out
     ps_ = F.one(r'^io::DispatcherInner::<P, C, U, E>::poll_service$')
     stops = [bi for bi, t in ps_.calls_to(r'IoRef::stop_timer$|::stop_timer$')]
-    R.ob('C20.reset-on-frame', 'poll_service|stop_timer sites', len(stops) == 1, 'found %d' % len(stops))
+    # (a stop_timer that is part of stopping the connection - followed on every path by `st = Stop(..)` - is not a pause)
+    import c07
+    stop_stores = {bi_ for bi_, var_, s_ in c07.state_stores(ps_) if var_ == 'Stop'}
+    stops = [x for x in stops if not (stop_stores and all(ps_.must_pass(stop_stores, r_, start=x) for r_ in ps_.returns() if r_ in ps_.reachable(x)))]
+    R.ob('C20.reset-on-frame', 'poll_service|stop_timer sites', len(stops) >= 1, 'found %d' % len(stops))
     for sb_ in stops:
         rms = [bi for bi, t, names in flag_calls(ps_, 'remove') if any('KA_TIMEOUT' in n for n in names) and any('READ_TIMEOUT' in n for n in names)]
         ok = any(r_ in ps_.dom.get(sb_, ()) for r_ in rms) or (bool(rms) and all(ps_.must_pass(rms, x, start=ps_.blocks[sb_]['term'].get('target', sb_)) for x in ps_.returns() if x in ps_.reachable(sb_)))
